@@ -418,3 +418,14 @@ def generic_replay(ctx, rp, tool_env=None):
     if "argv" in rp:
         st, out, err = run_tool([ctx.bin(rp["argv"][0])] + rp["argv"][1:], unhx(rp.get("stdin_hex", "-")), env=san_env())
         print("status", st, "\nstdout", out[:4000], "\nstderr", err[-1500:])
+
+
+def gz_exact(target, data):
+    """a stored (level 0) gzip member of exactly `target` compressed bytes built from a prefix of `data`"""
+    import zlib
+    for n in range(max(0, target - 80), target):
+        co = zlib.compressobj(0, zlib.DEFLATED, 31)
+        out = co.compress(data[:n]) + co.flush()
+        if len(out) == target:
+            return data[:n], out
+    return None
